@@ -75,7 +75,8 @@ class Walk:
                 i += 1
             # values
             while True:
-                if d[i] == 0x00 and d[i + 2] >= 0x80:
+                # a switchPage in front of an attribute value token or of an extension (extension = [switchPage] ...)
+                if d[i] == 0x00 and (d[i + 2] >= 0x80 or d[i + 2] in (0x40, 0x41, 0x42)):
                     i += 2
                 j = self.value_items(i, True)
                 if j is not None:
